@@ -3,8 +3,18 @@ Scenario  :F <op>*          op  ::= :g n | :l n $file line | :a fam $file line |
                             (failAllocNumber | failNthAllocAt | one allocation request | checkAllFailedAllocsWereDone | clearFailedAllocs)
                             fam: 0 alloc_memory 1 malloc 2 calloc 3 strdup 4 strndup 5 new 6 new[] 7 nothrow new 8 nothrow new[]
           :C custom <cop>*  cop ::= :o | :r | :d n | :m fam    (set_out_of_memory | set_not_out_of_memory | countdown n | malloc/calloc/strdup/strndup)
+          :R backing <rop>* rop ::= :o | :r | :d n | :m fam | :s fam slot | :f slot | :y slot size | :g n | :c
+                            backing: 0 default malloc allocator | 1 a test-installed one | 3 a FailableMemoryAllocator, current at the start.
+                            Blocks are KEPT: every :m / :s result (block or NULL) takes the next slot (0, 1, ...); :s = strdup (fam 2) /
+                            strndup (fam 3) of the string held by a slot; :f cpputest_free(slot); :y slot = cpputest_realloc(slot, size);
+                            :g n failAllocNumber(n) and :c clearFailedAllocs() on the failable allocator.
 Observation: one item per allocation (0 block, 1 NULL, 2 bad_alloc), per check (:n passes | :G n | :L $file line = what the
-failure names) and per reset (:A 0 default / 1 the test's allocator / 2 null allocator is current afterwards)."""
+failure names) and per reset (:A 0 default / 1 the test's allocator / 2 null allocator / 3 the failable one is current afterwards);
+:R only: :P res intact (strdup from a block: result, source untouched and copy right), :Q failure given (free: a failure was
+reported, the block reached the allocator it came from), :Y res failure intact (realloc: result, failure reported, bytes of the
+old or moved block as written), :E tracked clean (blocks the detector tracks at the end; after releasing them nothing the real
+allocator handed out is outstanding)."""
+import re
 from vlib import tz, tb
 ID = "C15"
 FLAVOURS = ["asan"]
@@ -18,11 +28,20 @@ RULE = ("(1) every allocation point of generated workloads (1-25 requests over 3
         "(2) 1-5 designations (global/local, every installation order and point, several on one location, never-firing ones: n<=0, n beyond "
         "the history, global index already passed, location never used) with checks and clears interleaved; (3) random operation soup filtered "
         "by the precondition; (4) countdown -1..13 x 0..15 requests x wrapper families, set_out_of_memory, 1-3 arm/reset segments with and "
-        "without a test-installed allocator. non-trivial = at least one designation (or arming) and one allocation; distinct by text")
+        "without a test-installed allocator; (5) :R -- blocks kept and released / reallocated / strdup'ed-from while failures are injected: "
+        "every combination of backing allocator (default, test-installed recording one, failable) x way out-of-memory begins (set_out_of_memory, "
+        "countdown 0..4 reaching 0 after 0..3 further requests, a designated index on the failable allocator) x 1-3 blocks of every wrapper family "
+        "handed out before x operation while it lasts (free, realloc grow/shrink/of NULL, strdup/strndup from a block, a request) x the same "
+        "operations after the reset / clear, plus valid random interleavings of all nine operations (free of NULL slots, set_out_of_memory on top "
+        "of a running countdown, several arm/reset rounds, designations installed mid-way). non-trivial = at least one designation (or arming) "
+        "and one allocation (:R: and one release / realloc / copy); distinct by text")
 ASSUMPTIONS = ["designations denote pairwise different allocations (checked per scenario by the extracted `valid`)",
                "file names are non-NULL C strings, numbers fit an int, fewer than 2^31 allocations",
                "C level: out-of-memory is armed from a not-out-of-memory state, at most one arming between two resets; a reset issued "
-               "before out-of-memory was reached while a test-installed malloc allocator is current is outside the domain (it installs the default allocator)"]
+               "before out-of-memory was reached while a test-installed malloc allocator is current is outside the domain (it installs the default allocator)",
+               ":R: a countdown is armed from a not-out-of-memory state (set_out_of_memory may come at any time), a block is released once and "
+               "not used afterwards, realloc sizes are 1..200, only index designations (failAllocNumber) on the failable allocator; realloc "
+               "is not a request that the countdown or the failable allocator counts (it never reaches alloc_memory)"]
 UNKNOWN = (b"<unknown>", 0)
 LOCS = [(b"a.c", 10), (b"a.c", 20), (b"b.c", 10), (b"a.cc", 10), (b"dir/a.c", 20), UNKNOWN]
 FAMS_LOC = [0, 1, 2, 3, 4, 5, 6]
@@ -262,6 +281,226 @@ def gen_count(rng, tier, out):
         out.append(":C %x " % custom + " ".join(toks))
 
 
+# ---- :R scenarios (blocks kept; releases and reallocs interleaved with the injected failures)
+class RTrack:
+    """generator-side copy of the counting state of the spec (qstep / rop_valid); only used to build valid scenarios and labels"""
+
+    def __init__(self, backing):
+        self.b, self.arm, self.k, self.g, self.D, self.slots = backing, None, 0, 0, [], []
+
+    def oom(self, k):
+        if self.arm is None:
+            return False
+        if self.arm == "o":
+            return True
+        return 0 <= self.arm <= k
+
+    def fails(self):
+        return self.oom(self.k + 1) or (self.b == 3 and (self.g + 1) in self.D)
+
+    def ok(self, o):
+        k = o[0]
+        if k == "d":
+            return self.arm is None
+        if k == "r":
+            return self.b == 0 or self.oom(self.k)
+        if k == "s":
+            return o[1] in (2, 3) and 0 <= o[2] < len(self.slots) and self.slots[o[2]] == "L"
+        if k in "fy":
+            return 0 <= o[1] < len(self.slots) and self.slots[o[1]] != "F" and (k == "f" or 1 <= o[2] <= 200)
+        if k in "gc":
+            return self.b == 3
+        return True
+
+    def step(self, o):
+        k = o[0]
+        if k == "o":
+            self.arm, self.k = "o", 0
+        elif k == "d":
+            self.arm, self.k = o[1], 0
+        elif k == "r":
+            self.arm, self.k = None, 0
+        elif k in "ms":
+            f, oomn = self.fails(), self.oom(self.k + 1)
+            self.k += 1
+            if not oomn:
+                self.g += 1
+            self.slots.append("N" if f else "L")
+        elif k == "f":
+            if self.slots[o[1]] == "L":
+                self.slots[o[1]] = "F"
+        elif k == "y":
+            if not self.oom(self.k):
+                self.slots[o[1]] = "L"
+        elif k == "g":
+            self.D = [o[1]] + self.D
+        elif k == "c":
+            self.g, self.D = 0, []
+
+
+def rtext(backing, ops):
+    out = [":R %x" % backing]
+    for o in ops:
+        k = o[0]
+        if k in "orc":
+            out.append(":" + k)
+        elif k in "dg":
+            out.append(":%s %s" % (k, tz(o[1])))
+        elif k in "mf":
+            out.append(":%s %x" % (k, o[1]))
+        else:
+            out.append(":%s %x %x" % (k, o[1], o[2]))
+    return " ".join(out)
+
+
+def rparse(s):
+    t = s.split()
+    assert t[0] == ":R"
+    b, i, ops = int(t[1], 16), 2, []
+    while i < len(t):
+        k = t[i][1]
+        if k in "orc":
+            ops.append((k,)); i += 1
+        elif k in "dg":
+            ops.append((k, unz(t[i + 1]))); i += 2
+        elif k in "mf":
+            ops.append((k, int(t[i + 1], 16))); i += 2
+        else:
+            ops.append((k, int(t[i + 1], 16), int(t[i + 2], 16))); i += 3
+    return b, ops
+
+
+def rvalid(backing, ops):
+    tr = RTrack(backing)
+    for o in ops:
+        if not tr.ok(o):
+            return False
+        tr.step(o)
+    return True
+
+
+RSIZES = [1, 2, 4, 7, 8, 9, 16, 40, 200]
+
+
+def r_under(rng, tr, which, live):
+    """one operation of kind `which` on a block handed out earlier (live: slot numbers), as op tuples"""
+    if which == "free":
+        return [("f", rng.choice(live))]
+    if which == "grow":
+        return [("y", rng.choice(live), rng.choice([16, 40, 200]))]
+    if which == "shrink":
+        return [("y", rng.choice(live), rng.choice([1, 2, 4, 7]))]
+    if which == "dup":
+        return [("s", rng.choice([2, 3]), rng.choice(live))]
+    if which == "req":
+        return [("m", rng.randrange(4))]
+    if which == "renull":                       # realloc(NULL, n): the refused request of just before
+        return [("m", rng.randrange(4)), ("y", len(tr.slots), rng.choice(RSIZES))]
+    if which == "freenull":
+        return [("m", rng.randrange(4)), ("f", len(tr.slots))]
+    return []
+
+
+def gen_rel_product(rng, out, reps):
+    under = ["free", "grow", "shrink", "dup", "req", "renull", "freenull"]
+    for _ in range(reps):
+        for b in (0, 1, 3):
+            begins = [("o",)] + [("d", n, extra) for n in range(0, 5) for extra in range(0, 4) if extra <= n + 1]
+            if b == 3:
+                begins += [("g", j) for j in (1, 2, 3)]
+            for how in begins:
+                for u in under:
+                    nb = rng.randrange(1, 4)
+                    ops = [("m", rng.randrange(4)) for _ in range(nb)]
+                    if rng.random() < 0.3:       # one of the earlier blocks comes from a realloc / a copy
+                        ops.append(rng.choice([("y", 0, rng.choice(RSIZES)), ("s", rng.choice([2, 3]), 0)]))
+                    if how[0] == "o":
+                        ops.append(("o",))
+                    elif how[0] == "d":
+                        ops.append(("d", how[1]))
+                        # requests until the countdown has (or has just not) reached 0
+                        ops += [("m", rng.randrange(4)) for _ in range(max(0, how[1] - 1 + (how[2] - 1)))] if how[1] > 0 else [("m", rng.randrange(4)) for _ in range(how[2])]
+                    else:
+                        # the designated request is the j-th from now: it fails, the blocks from before are then used
+                        ops.append(("g", nb + how[1]))
+                        ops += [("m", rng.randrange(4)) for _ in range(how[1])]
+                    tr = RTrack(b)
+                    good = True
+                    for o in ops:
+                        if not tr.ok(o):
+                            good = False
+                            break
+                        tr.step(o)
+                    if not good:
+                        continue
+                    live = [i for i, x in enumerate(tr.slots) if x == "L"]
+                    if not live:
+                        continue
+
+                    def add(which):
+                        nonlocal live
+                        for o in r_under(rng, tr, which, live):
+                            if not tr.ok(o):
+                                return
+                            ops.append(o); tr.step(o)
+                        live = [i for i, x in enumerate(tr.slots) if x == "L"] or [0]
+                    add(u)
+                    for _ in range(rng.randrange(0, 3)):
+                        add(rng.choice(under))
+                    # clear the injection (if the domain allows), then the same kinds of operation again
+                    clr = ("c",) if how[0] == "g" else ("r",)
+                    if how[0] == "g" and rng.random() < 0.3:
+                        ops.append(("o",)); tr.step(("o",))
+                        add(rng.choice(under))
+                        clr = ("r",)
+                    if tr.ok(clr):
+                        ops.append(clr); tr.step(clr)
+                        for _ in range(rng.randrange(1, 4)):
+                            add(rng.choice(under))
+                    if rvalid(b, ops):
+                        out.append(rtext(b, ops))
+
+
+def gen_rel_soup(rng, out, n):
+    for _ in range(n):
+        b = rng.choice([0, 1, 3])
+        tr = RTrack(b)
+        ops = []
+        for _ in range(rng.randrange(3, 40)):
+            live = [i for i, x in enumerate(tr.slots) if x == "L"]
+            nul = [i for i, x in enumerate(tr.slots) if x == "N"]
+            c = rng.random()
+            oomnow = tr.oom(tr.k)
+            if c < (0.12 if oomnow else 0.34):
+                o = ("m", rng.randrange(4))
+            elif c < 0.50:
+                o = ("f", rng.choice(live)) if live and rng.random() < 0.85 else (("f", rng.choice(nul)) if nul else None)
+            elif c < 0.66:
+                o = ("y", rng.choice(live), rng.choice(RSIZES)) if live and rng.random() < 0.8 else (("y", rng.choice(nul), rng.choice(RSIZES)) if nul else None)
+            elif c < 0.74:
+                o = ("s", rng.choice([2, 3]), rng.choice(live)) if live else None
+            elif c < 0.80:
+                o = ("o",)
+            elif c < 0.88:
+                o = ("d", rng.choice([0, 1, 1, 2, 2, 3, 4, 6, -1, 0x7fffffff]))
+            elif c < 0.95:
+                o = ("r",)
+            elif c < 0.99:
+                o = ("g", tr.g + rng.randrange(0, 5))
+            else:
+                o = ("c",)
+            if o is None or not tr.ok(o):
+                continue
+            ops.append(o); tr.step(o)
+        if ops:
+            out.append(rtext(b, ops))
+
+
+def gen_rel(rng, tier, out):
+    gen_rel_product(rng, out, 3 if tier == "quick" else 25)
+    gen_rel_soup(rng, out, 4000 if tier == "quick" else 40000)
+
+
 def generate(tier, rng):
     fops = []
     gen_each_point(rng, 120 if tier == "quick" else 900, fops)
@@ -273,6 +512,7 @@ def generate(tier, rng):
         if valid_ops(ops):
             out.append(ptext(ops))
     gen_count(rng, tier, out)
+    gen_rel(rng, tier, out)
     return out
 
 
@@ -298,6 +538,8 @@ def nontrivial(s):
     t = s.split()
     if t[0] == ":F":
         return (":g" in t or ":l" in t) and ":a" in t
+    if t[0] == ":R":
+        return (":o" in t or ":d" in t or ":g" in t) and ":m" in t and (":f" in t or ":y" in t or ":s" in t)
     return (":o" in t or ":d" in t) and ":m" in t
 
 
@@ -305,6 +547,31 @@ def classify(s):
     t = s.split()
     if t[0] == ":C":
         return ["C/custom" if t[1] == "1" else "C/default", "C/resets=%d" % min(t.count(":r"), 3)]
+    if t[0] == ":R":
+        b, ops = rparse(s)
+        lab = ["R/backing=%s" % {0: "default", 1: "custom", 3: "failable"}.get(b, b), "R/resets=%d" % min(t.count(":r"), 3)]
+        tr = RTrack(b)
+        was = False
+        for o in ops:
+            now = tr.oom(tr.k)
+            when = "under-oom" if now else ("after-reset" if was and tr.arm is None else "before")
+            if o[0] == "f":
+                lab.append("R/free-%s-%s" % ("block" if tr.slots[o[1]] == "L" else "null", when))
+            elif o[0] == "y":
+                lab.append("R/realloc-%s-%s" % ("block" if tr.slots[o[1]] == "L" else "null", when))
+            elif o[0] == "s":
+                lab.append("R/dup-%s" % when)
+            elif o[0] == "m" and tr.fails() and not tr.oom(tr.k + 1):
+                lab.append("R/designated-request")
+            elif o[0] == "o":
+                lab.append("R/oom-by-set" + ("-over-countdown" if tr.arm not in (None, "o") else ""))
+            elif o[0] == "d":
+                lab.append("R/oom-by-countdown")
+            if o[0] in "ms" and not now and tr.oom(tr.k + 1) and tr.arm != "o":
+                lab.append("R/countdown-reaches-0-here")
+            was = was or now
+            tr.step(o)
+        return sorted(set(lab))
     ops = pparse(s)
     nd = sum(1 for o in ops if o[0] in "gl")
     na = sum(1 for o in ops if o[0] == "a")
@@ -335,6 +602,15 @@ def signature(s, o):
         return "%s crash %s families=%s" % (t[0], o.split("@")[0].strip()[:60], ",".join(fam))
     if t[0] == ":C":
         return ":C custom=%s countdown=%s oom=%s" % (t[1], ":d" in t, ":o" in t)
+    if t[0] == ":R":
+        what = []
+        if re.search(r":Q 1", o):
+            what.append("free-reports-failure")
+        if re.search(r":Y \d 1", o):
+            what.append("realloc-reports-failure")
+        if re.search(r":E -?[0-9a-f]+ 0", o):
+            what.append("not-given-back")
+        return ":R backing=%s countdown=%s oom=%s designation=%s %s" % (t[1], ":d" in t, ":o" in t, ":g" in t, ",".join(what) or "other")
     ops = pparse(s)
     locs = [o_[2] for o_ in ops if o_[0] == "l"]
     return ":F global=%s local=%s same-location=%s clear=%s" % (any(x[0] == "g" for x in ops), bool(locs), len(locs) != len(set(locs)),
@@ -350,6 +626,32 @@ def shrink(s):
             items.append(" ".join(t[i:i + n])); i += n
         for k in range(len(items)):
             yield " ".join(t[:2] + items[:k] + items[k + 1:])
+        return
+    if t[0] == ":R":
+        b, ops = rparse(s)
+
+        def refs(o):
+            return o[1] if o[0] in "fy" else (o[2] if o[0] == "s" else None)
+
+        def reslot(o, f):
+            return (o[0], f(o[1])) + tuple(o[2:]) if o[0] in "fy" else ((o[0], o[1], f(o[2])) if o[0] == "s" else o)
+        for k in range(len(ops)):
+            if ops[k][0] in "ms":       # the slot it made goes too: drop its users, renumber the later slots
+                sl = sum(1 for x in ops[:k] if x[0] in "ms")
+                c = [reslot(x, lambda i: i - 1 if i > sl else i) for j, x in enumerate(ops) if j != k and refs(x) != sl]
+            else:
+                c = ops[:k] + ops[k + 1:]
+            if rvalid(b, c):
+                yield rtext(b, c)
+        for k, x in enumerate(ops):
+            if x[0] == "m" and x[1] != 0:
+                yield rtext(b, ops[:k] + [("m", 0)] + ops[k + 1:])
+            if x[0] == "y" and x[2] != 16:
+                yield rtext(b, ops[:k] + [("y", x[1], 16)] + ops[k + 1:])
+            if x[0] == "d" and x[1] > 1 and rvalid(b, ops[:k] + [("d", x[1] - 1)] + ops[k + 1:]):
+                yield rtext(b, ops[:k] + [("d", x[1] - 1)] + ops[k + 1:])
+        if b != 0 and rvalid(0, [x for x in ops if x[0] not in "gc"]):
+            yield rtext(0, [x for x in ops if x[0] not in "gc"])
         return
     ops = pparse(s)
     for k in range(len(ops)):
@@ -367,13 +669,22 @@ LEVEL_TEXT = ("Machine-checked (Coq) theorems over an executable model of Failab
               "allocation histories the failing allocations are exactly the designated ones (designated = defined by counting the history, "
               "independent of the list), the never-done check raises iff a designation still waits and names one that does, clear restores "
               "the fresh behaviour, countdown n fails exactly the allocations i with 0<=n<=i until reset and reset restores the saved "
-              "allocator, failed allocations are delivered as NULL/bad_alloc. Tied to the code by a differential run of the extracted model "
+              "allocator, failed allocations are delivered as NULL/bad_alloc; and, with the saved allocator / stand-in pair of "
+              "TestHarness_c.cpp as three explicit variables and every tracked block remembering its allocator, for all valid interleavings of "
+              "requests, releases, reallocs, copies from a block, armings, resets and index designations on a failable allocator: no release and "
+              "no realloc raises a failure, a released block reaches the allocator it came from, realloc returns NULL exactly while out-of-memory "
+              "is simulated and then changes nothing, the refused requests are exactly those told by counting, and after a reset the run continues "
+              "as from a state in which nothing was ever injected. Tied to the code by a differential run of the extracted model "
               "against the real classes with every allocation point of generated workloads designated in turn, the extracted spec judging "
               "the implementation's observations.")
 LEVEL_NOTE = ("Trusted: Coq kernel, extraction (ExtrOcamlBasic), harness and generators. Modelled not verified: the C++ itself; int overflow of "
               "the counters (needs 2^31 allocations) and NULL file names are excluded by assumption. The pre-repair code (D6 global fall-through "
               "of location nodes, D7 walk stopping at the first firing node, D5 strdup/strndup copying into NULL) is kept as *_old with "
-              "refutation lemmas. strdup/strndup under out-of-memory are exercised only when ENABLE_STRDUP_OOM is set (after the D5 repair).")
+              "refutation lemmas; so is the code before 4104eb1 (the Null allocator stood in on the release path too: resolve_old, "
+              "C15_release_old_refuted with the witness malloc; set_out_of_memory; free). strdup/strndup under out-of-memory are exercised only "
+              "when ENABLE_STRDUP_OOM is set (after the D5 repair). In :R scenarios the failure reporter of the private detector records and "
+              "returns (a real test would leave the function at the first report); realloc is modelled as the code has it: not a request "
+              "counted by the countdown or by the failable allocator.")
 TECHNIQUE = "Coq proof (simulation invariant between the pending list and a counting definition of 'designated') over a hand-written executable model + extracted-model/implementation correspondence check with fault enumeration over every allocation point"
 PER_TIMEOUT = 20.0
 CRASH_IS_VIOLATION = True
